@@ -603,7 +603,7 @@ fn c10_stress(ctx: &ShardCtx) -> ShardResult {
         let extra: Vec<Entity> = world.create_iter().take(50).collect();
         world.delete_entities(&extra).unwrap();
         world.maintain();
-        let burst = ctx.tier.pick(4000usize, 20000usize);
+        let burst = ctx.tier.pick(9000usize, 20000usize);
         let barrier = std::sync::Barrier::new(nthreads);
         let results: Vec<(Vec<Entity>, Vec<Entity>, u32, bool)> = {
             let world = &world;
@@ -777,7 +777,7 @@ pub fn c10() -> Property {
                 shards: |t: Tier| t.pick(2, 8),
                 run: c10_stress,
                 replay: stress_replay,
-                rule: "un-scheduled stress on 2..16 real threads (x86-TSO only samples weak-memory behaviour): mixed create / delete / join+is_alive / lazy exec, then a barrier-started burst of 4000 (quick) / 20000 (thorough) pushes per thread through exec, exec_mut and insert; same end-state oracle; every round is one case",
+                rule: "un-scheduled stress on 2..16 real threads (x86-TSO only samples weak-memory behaviour): mixed create / delete / join+is_alive / lazy exec, then a barrier-started burst of 9000 (quick) / 20000 (thorough) pushes per thread (more than 65536 pending actions in one maintain with 8 and 16 threads) through exec, exec_mut and insert; same end-state oracle; every round is one case",
                 exe_env: None,
             },
         ],
